@@ -559,7 +559,8 @@ class World(EventDispatcher):
         """
         self._clear_dead_entities()
 
-        for processor in self._sorted_processors:
+        # Iterate on a copy, processors may be added while processing
+        for processor in tuple(self._sorted_processors):
             processor.process(dt)
 
     def clear(self):
